@@ -499,7 +499,12 @@ class VM:
             a = self.stack.pop()
             b_num = to_number(b)
             a_num = to_number(a)
-            if b_num == 0 or math.isnan(a_num) or math.isnan(b_num) or math.isinf(a_num):
+            if (
+                b_num == 0
+                or math.isnan(a_num)
+                or math.isnan(b_num)
+                or math.isinf(a_num)
+            ):
                 self.stack.append(float("nan"))
             elif math.isinf(b_num):
                 self.stack.append(a_num)
@@ -882,9 +887,8 @@ class VM:
         (e.g. a for-in iterator when returning from inside the loop) and the
         handlers of try blocks it returned out of."""
         del self.stack[popped_frame.bp :]
-        while (
-            self.exception_handlers
-            and self.exception_handlers[-1][0] >= len(self.call_stack)
+        while self.exception_handlers and self.exception_handlers[-1][0] >= len(
+            self.call_stack
         ):
             self.exception_handlers.pop()
 
@@ -1361,7 +1365,11 @@ class VM:
 
         def lastIndexOf_fn(*args):
             search = args[0] if args else UNDEFINED
-            start = to_integer(args[1], len(arr._elements) - 1) if len(args) > 1 else len(arr._elements) - 1
+            start = (
+                to_integer(args[1], len(arr._elements) - 1)
+                if len(args) > 1
+                else len(arr._elements) - 1
+            )
             if start < 0:
                 start = len(arr._elements) + start
             for i in range(min(start, len(arr._elements) - 1), -1, -1):
@@ -1421,7 +1429,11 @@ class VM:
 
         def slice_fn(*args):
             start = to_integer(args[0]) if args else 0
-            end = to_integer(args[1], len(arr._elements)) if len(args) > 1 else len(arr._elements)
+            end = (
+                to_integer(args[1], len(arr._elements))
+                if len(args) > 1
+                else len(arr._elements)
+            )
             if start < 0:
                 start = max(0, len(arr._elements) + start)
             if end < 0:
